@@ -54,3 +54,208 @@ def module_state(ct, subs):
 def register(reg):
     reg.syntactic["objective-purity"] = Check("C17", lambda ct, reg, prop: class_state(ct, ["synthetic_obj"]) + module_state(ct, ["synthetic_obj"]))
     reg.syntactic["no-shared-state"] = Check("C14", lambda ct, reg, prop: class_state(ct, ["algos", "partition"]) + module_state(ct, ["algos", "partition"]))
+
+
+# ====================================================================== C14: effect whitelist
+ALLOWED_MODULES = {"np", "numpy", "math", "copy", "pdb", "abc", "random"}   # `random` is imported by SequOOL but must not be *used*
+FORBIDDEN_NAMES = {"time", "datetime", "os", "id", "hash", "set", "frozenset", "globals", "locals", "open", "input", "eval", "exec",
+                   "getattr", "setattr", "vars", "__import__"}
+NP_RANDOM_OK = {"randint", "uniform", "choice", "normal"}
+
+
+def effects(ct, subs):
+    out = []
+    for rel, mod in sorted(ct.modules.items()):
+        if not any(("/" + s + "/") in ("/" + rel) for s in subs):
+            continue
+        bad = []
+        for n in ast.walk(mod):
+            if isinstance(n, ast.Import):
+                for a in n.names:
+                    if a.name.split(".")[0] not in ALLOWED_MODULES | {"PyXAB"}:
+                        bad.append("line %d: import %s" % (n.lineno, a.name))
+            if isinstance(n, ast.ImportFrom):
+                if (n.module or "").split(".")[0] not in ALLOWED_MODULES | {"PyXAB"}:
+                    bad.append("line %d: from %s import" % (n.lineno, n.module))
+            if isinstance(n, ast.Name) and isinstance(n.ctx, ast.Load) and n.id in FORBIDDEN_NAMES:
+                # a parameter called `time` is fine; a *call* time(...) / time.time() is not
+                pass
+            if isinstance(n, ast.Call):
+                f = n.func
+                if isinstance(f, ast.Name) and f.id in FORBIDDEN_NAMES:
+                    bad.append("line %d: call of %s()" % (n.lineno, f.id))
+                if isinstance(f, ast.Attribute):
+                    base = f.value
+                    if isinstance(base, ast.Name) and base.id in ("random", "time", "os", "datetime"):
+                        bad.append("line %d: %s.%s()" % (n.lineno, base.id, f.attr))
+                    if isinstance(base, ast.Attribute) and base.attr == "random" and isinstance(base.value, ast.Name) \
+                            and base.value.id in ("np", "numpy") and f.attr not in NP_RANDOM_OK:
+                        bad.append("line %d: np.random.%s (not in the list of contracted generators)" % (n.lineno, f.attr))
+            if isinstance(n, (ast.Set, ast.SetComp)):
+                bad.append("line %d: set literal (iteration order depends on hashing)" % n.lineno)
+        out.append({"id": "syn:effect-whitelist:%s" % rel, "ok": not bad,
+                    "detail": "sources of nondeterminism / outside effects other than numpy's global generator: " + "; ".join(bad) if bad else ""})
+    return out
+
+
+# ====================================================================== C15: the time argument is only a label
+TIME_ALGOS = ["T_HOO", "HCT", "VHCT", "Zooming", "POO", "GPO", "PCT", "VPCT", "DOO", "SOO", "SequOOL", "VROOM"]
+LABEL_FIELD = {"DOO", "SOO", "SequOOL", "VROOM"}      # these store the label in self.iteration and never read it
+
+
+def time_label(ct):
+    out = []
+    for cname in TIME_ALGOS:
+        ci = ct.classes.get(cname)
+        if ci is None:
+            out.append({"id": "syn:time-is-label:%s" % cname, "ok": False, "detail": "class %s not found" % cname})
+            continue
+        bad = []
+        for mname in ("pull", "receive_reward"):
+            fd = ci.methods.get(mname)
+            if fd is None:
+                continue
+            tname = fd.args.args[1].arg
+            parents = {}
+            for n in ast.walk(fd):
+                for ch in ast.iter_child_nodes(n):
+                    parents[id(ch)] = n
+            for n in ast.walk(fd):
+                if isinstance(n, ast.Name) and n.id == tname and isinstance(n.ctx, ast.Load):
+                    p = parents.get(id(n))
+                    ok = False
+                    if isinstance(p, ast.Assign) and p.value is n and len(p.targets) == 1 and isinstance(p.targets[0], ast.Attribute) \
+                            and p.targets[0].attr == "iteration" and cname in LABEL_FIELD:
+                        ok = True
+                    if isinstance(p, ast.Call) and isinstance(p.func, ast.Attribute) and p.func.attr in ("pull", "receive_reward") and n in p.args:
+                        ok = True
+                    if isinstance(p, ast.keyword) and p.arg == "time":
+                        ok = True
+                    if not ok:
+                        bad.append("%s line %d: the time argument is used in %s" % (mname, n.lineno, type(p).__name__))
+            if isinstance(fd, ast.FunctionDef):
+                for n in ast.walk(fd):
+                    if isinstance(n, ast.Assign) and any(isinstance(t, ast.Name) and t.id == tname for t in n.targets):
+                        bad.append("%s line %d: the time parameter is reassigned" % (mname, n.lineno))
+        if cname in LABEL_FIELD:
+            for mname, fd in ci.methods.items():
+                for n in ast.walk(fd):
+                    if isinstance(n, ast.Attribute) and n.attr == "iteration" and isinstance(n.ctx, ast.Load) \
+                            and isinstance(n.value, ast.Name) and n.value.id == "self":
+                        bad.append("%s line %d: self.iteration (which holds the caller's time label) is read" % (mname, n.lineno))
+        else:
+            # an internal counter must not be fed from the label
+            for mname, fd in ci.methods.items():
+                for n in ast.walk(fd):
+                    if isinstance(n, ast.Assign) and isinstance(n.value, ast.Name) and mname in ("pull", "receive_reward") \
+                            and n.value.id == fd.args.args[1].arg:
+                        bad.append("%s line %d: a field is set from the time label" % (mname, n.lineno))
+        out.append({"id": "syn:time-is-label:%s" % cname, "ok": not bad, "detail": "; ".join(bad)})
+    return out
+
+
+def scratch_only(reg):
+    """get_last_point of the tree bandits may only write scratch fields, and nothing pull/receive_reward requires mentions them"""
+    out = []
+    SCR = {"T_HOO": {"self.path"}, "HCT": {"self.path", "self.curr_node", "self.tau_h"},
+           "VHCT": {"self.path", "self.curr_node", "*VHCT_node.tau"}}
+    for a, allowed in SCR.items():
+        c = reg.contracts.get(a + ".get_last_point")
+        bad = []
+        if c is None:
+            bad.append("no contract")
+        else:
+            extra = set(c.modifies) - allowed
+            if extra:
+                bad.append("get_last_point may modify %s" % sorted(extra))
+            p = reg.contracts.get(a + ".pull")
+            for cl in (p.requires if p else []):
+                for w in ("self.path", "curr_node", "tau_h", ".tau "):
+                    if w in cl.text:
+                        bad.append("pull requires a fact about the scratch field %s (%s)" % (w, cl.label))
+        out.append({"id": "syn:recommendation-query-writes-scratch-only:%s" % a, "ok": not bad, "detail": "; ".join(bad)})
+    return out
+
+
+# ====================================================================== C16: decisions never look at coordinates
+COORD_ATTRS = {"domain", "c_point", "p"}
+COORD_CALLS = {"get_domain", "get_cpoint", "get_point", "sample_uniform"}
+# documented / relational exceptions: (class, method)
+COORD_EXEMPT = {("Zooming", "receive_reward"): "containment test compares a coordinate with a coordinate (invariant under x -> s*x+t, s>0)",
+                ("DOO", "delta_init"): "default diameter function: documented exception (translation invariant only)",
+                ("VROOM_node", "sample_uniform"): "uniform draw inside the cell (affine by the assumed contract of np.random.uniform)",
+                ("P_node", "__init__"): "centre point (affine in the bounds)"}
+
+
+def coord_free(ct):
+    out = []
+    for cname, ci in sorted(ct.classes.items()):
+        if "/algos/" not in "/" + ci.file:
+            continue
+        for mname, fd in sorted(ci.methods.items()):
+            if (cname, mname) in COORD_EXEMPT:
+                continue
+            tainted = set()
+            a0 = [x.arg for x in fd.args.args]
+            if "domain" in a0:
+                tainted.add("domain")
+
+            def is_coord(e):
+                if isinstance(e, ast.Attribute) and e.attr in COORD_ATTRS:
+                    return True
+                if isinstance(e, ast.Call) and isinstance(e.func, ast.Attribute) and e.func.attr in COORD_CALLS:
+                    return True
+                if isinstance(e, ast.Name) and e.id in tainted:
+                    return True
+                if isinstance(e, ast.Subscript):
+                    return is_coord(e.value)
+                return False
+            bad = []
+            changed = True
+            while changed:
+                changed = False
+                for n in ast.walk(fd):
+                    if isinstance(n, ast.Assign) and is_coord(n.value):
+                        for t in n.targets:
+                            if isinstance(t, ast.Name) and t.id not in tainted:
+                                tainted.add(t.id)
+                                changed = True
+                    if isinstance(n, ast.For) and is_coord(n.iter) and isinstance(n.target, ast.Name) and n.target.id not in tainted:
+                        tainted.add(n.target.id)
+                        changed = True
+            for n in ast.walk(fd):
+                subs = []
+                if isinstance(n, ast.Compare):
+                    subs = [n.left] + n.comparators
+                    # `x is None` / `domain is None` tests presence, not a coordinate
+                    if all(isinstance(o, (ast.Is, ast.IsNot)) for o in n.ops):
+                        subs = []
+                elif isinstance(n, ast.BinOp):
+                    subs = [n.left, n.right]
+                elif isinstance(n, ast.UnaryOp):
+                    subs = [n.operand]
+                elif isinstance(n, (ast.If, ast.While, ast.IfExp)):
+                    subs = [n.test]
+                elif isinstance(n, ast.Call) and isinstance(n.func, ast.Name) and n.func.id in ("len", "min", "max", "abs", "float", "int", "sorted"):
+                    subs = list(n.args)
+                for s in subs:
+                    if is_coord(s):
+                        bad.append("line %d: a coordinate value (%s) enters %s" % (s.lineno, ast.unparse(s)[:40], type(n).__name__))
+            out.append({"id": "syn:coordinate-free-decisions:%s.%s" % (cname, mname), "ok": not bad, "detail": "; ".join(bad[:4])})
+    for (c, m), why in sorted(COORD_EXEMPT.items()):
+        out.append({"id": "syn:coordinate-use-exempt:%s.%s" % (c, m), "ok": True, "detail": why})
+    return out
+
+
+def register2(reg):
+    reg.syntactic["effect-whitelist"] = Check("C14", lambda ct, reg, prop: effects(ct, ["algos", "partition"]))
+    reg.syntactic["time-is-label"] = Check("C15", lambda ct, reg, prop: time_label(ct) + scratch_only(reg))
+    reg.syntactic["coordinate-free"] = Check("C16", lambda ct, reg, prop: coord_free(ct))
+
+
+_old_register = register
+
+
+def register(reg):
+    _old_register(reg)
+    register2(reg)
